@@ -1,9 +1,9 @@
 """C19 - An engine reported ready can be processed.
 
-`Engine.is_ready` is interpreted abstractly for one rule block / one output variable under every
-assignment of {operator present, operator needed}: for each of the five operator kinds there must be
-an `errors.append` site that executes exactly when that operator is needed and missing (Appendix A.6).
-Need counters are bound to kinds by the keyword / defuzzifier class their increments consult.
+`Engine.is_ready` is interpreted abstractly (sa/absexec.py) on model engines - one rule block with two rules, a Mamdani and a
+Takagi-Sugeno output - for every combination of {operator present, operator needed} (C1): the errors reported with a needed operator
+missing must differ from those of the same engine with the operator present. The runtime sites that raise on a missing operator are
+paired with it (C1-raise, C1-deref, P9), and the parsers of rule text separate tokens as the search of readiness presupposes (C1-tok).
 """
 
 from __future__ import annotations
@@ -11,27 +11,27 @@ from __future__ import annotations
 import ast
 import itertools
 
-from ..guards import RoleEval, simulate
+from ..guards import RoleEval
 from ..pm import AnalysisError, unparse
 from ..report import Check
-from ..sym import Resolver, Term, path_of, show, walk
-from .common import body_entry, is_path, iter_base, loc, loops_over, non_accumulating_liveouts
+from ..sym import Resolver, Term, walk
+from .common import iter_base, loc
 
 EXPLANATION = (
-    "static analysis of Engine.is_ready and of the runtime sites that raise on a missing operator: one iteration "
-    "of the rule-block loop and of the output-variable loop is interpreted abstractly under all 2^6 / 2^3 "
-    "assignments of (operator needed, operator present); for each of conjunction, disjunction, implication, "
-    "aggregation, defuzzifier some report site must execute exactly when that operator is needed and missing; "
-    "need counters are bound by the keyword (Rule.AND / Rule.OR) or defuzzifier class their increments consult; the operators that reach "
-    "the runtime tests are the block's own through the whole recursion over the antecedent (P9); every parser of rule text separates tokens "
-    "at any whitespace, as the ` and ` / ` or ` search of readiness in the space-normalised text presupposes (C1-tok); what decides the need is a "
-    "property of the rule / conclusion at hand - the conclusion's own variable's defuzzifier, the rule's own antecedent text (C1-subj)"
+    "static analysis of Engine.is_ready and of the runtime sites that raise on a missing operator: is_ready is interpreted abstractly on model "
+    "engines (one rule block with two rules; a Mamdani output with an integral defuzzifier and a Takagi-Sugeno output with a weighted one) for all "
+    "1024 combinations of `and` / `or` in the antecedent, conclusions per rule, and conjunction / disjunction / implication / aggregation / "
+    "defuzzifier present or not; for each kind, the errors reported when the operator is needed and missing must differ from the errors for the same "
+    "engine with the operator present, and the result must be `not errors`; the operators that reach "
+    "the runtime tests are the block's own through the whole recursion over the antecedent (P9); every optional operator is examined before it is "
+    "applied on every path (C1-deref); every parser of rule text separates tokens "
+    "at any whitespace, as the ` and ` / ` or ` search of readiness in the space-normalised text presupposes (C1-tok)"
 )
 ASSUMPTIONS = [
     "rules written with whitespace-separated tokens (property precondition); rule blocks have an activation method",
     "readiness concerns the five operator kinds of the property; other causes of exceptions are outside its quantifier",
 ]
-FLOORS = {"C1": 5, "C1-raise": 5, "C1-acc": 1, "C1-deref": 6, "P9": 7, "C1-tok": 6, "C1-subj": 3}
+FLOORS = {"C1": 6, "C1-raise": 5, "C1-deref": 6, "P9": 7, "C1-tok": 6}
 
 MARKERS = {
     "fuzzylite.rule.Rule.AND": "AND",
@@ -39,197 +39,20 @@ MARKERS = {
     "fuzzylite.defuzzifier.IntegralDefuzzifier": "Integral",
     "fuzzylite.defuzzifier.WeightedDefuzzifier": "Weighted",
 }
-NEED_BY_MARKER = {frozenset({"AND"}): "need_conjunction", frozenset({"OR"}): "need_disjunction",
-                  frozenset({"Integral"}): "need_implication"}
 
 
 def markers_in(t: Term) -> frozenset[str]:
     return frozenset(MARKERS[s[1]] for s in walk(t) if s[0] == "global" and s[1] in MARKERS)
 
 
-def is_accumulator(t: Term) -> bool:
-    """phi{0, carried + x}: a counter/accumulator seeded with zero."""
-    if t[0] != "phi":
-        return False
-    zero = inc = False
-    for a in t[1]:
-        if a[0] == "const" and a[1] == 0:
-            zero = True
-        elif a[0] == "binop" and a[1] == "+":
-            inc = True
-        else:
-            return False
-    return zero and inc
-
-
 def run(check: Check) -> None:
     p = check.program
     fn = p.func("Engine.is_ready")
     check.analysed(fn)
-    r = Resolver(p, fn)
-    cfg = r.cfg
-
-    appends = []
-    for n, c in cfg.find_calls(".append"):
-        recv = r.term(c.func.value, n)  # type: ignore[union-attr]
-        if any(s_ == ("param", "errors") for s_ in walk(recv)):
-            appends.append(n)
-    if not appends:
-        raise AnalysisError("Engine.is_ready: no error report sites (errors.append) found")
-
-    def block(loop_path: str, kinds: dict[str, object], bools: list[str], infeasible=lambda e: False) -> None:
-        loops = loops_over(r, lambda b: is_path(b, loop_path))
-        if not loops:
-            raise AnalysisError(f"Engine.is_ready: no loop over {loop_path}")
-        head = loops[0][0]
-        body = cfg.loop_body(head)
-        sites = [n for n in appends if n in body and not [h for h in cfg.enclosing_loops(n) if h is not head]]
-
-        def is_elem(t: Term) -> bool:
-            return t[0] == "elem" and is_path(iter_base(t[1])[0], loop_path)
-
-        # need quantities: local accumulators whose increments (or the guards of their increments) consult a marker
-        def markers_of_var(name: str, depth: int = 0, seen: frozenset = frozenset()) -> frozenset[str]:
-            if name in seen or depth > 4:
-                return frozenset()
-            out: set[str] = set()
-            for n in body:
-                for d in cfg.defs_at(n):
-                    if d.name != name or d.value is None:
-                        continue
-                    out |= markers_in(r.term(d.value, n))
-                    for g, pol, gn in cfg.must_guards(n):
-                        if gn not in body:
-                            continue
-                        out |= markers_in(r.term(g, gn))
-                        for x in ast.walk(g):
-                            if isinstance(x, ast.Name):
-                                out |= markers_of_var(x.id, depth + 1, seen | {name})
-                    for x in ast.walk(d.value):
-                        if isinstance(x, ast.Name) and x.id != name:
-                            out |= markers_of_var(x.id, depth + 1, seen | {name})
-            return frozenset(out)
-
-        need_by_term: dict[Term, str] = {}
-        for n in body:
-            if n.kind != "test":
-                continue
-            for x in ast.walk(n.ast):  # type: ignore[arg-type]
-                if isinstance(x, ast.Name) and cfg.defs_reaching(x.id, n):
-                    t_ = r.name_term(x.id, n)
-                    if is_accumulator(t_):
-                        role = NEED_BY_MARKER.get(markers_of_var(x.id))
-                        if role:
-                            need_by_term[t_] = role
-
-        def classify(t: Term, e: ast.AST) -> str | None:
-            if t in need_by_term:
-                return need_by_term[t]
-            if t[0] == "attr" and is_elem(t[1]) and f"has_{t[2]}" in bools:
-                return f"has_{t[2]}"
-            if t[0] == "call" and t[1] == ("global", "isinstance") and len(t[2]) == 2 and t[2][0][0] == "attr" and \
-                    is_elem(t[2][0][1]) and t[2][0][2] == "defuzzifier" and \
-                    t[2][1] == ("global", "fuzzylite.defuzzifier.IntegralDefuzzifier"):
-                return "integral"
-            if is_accumulator(t):
-                return NEED_BY_MARKER.get(markers_in(t))
-            return None
-
-        ev = RoleEval(r, classify)
-        start = body_entry(head)
-        outside = {n for n in cfg.nodes if n not in body}
-        table: dict[int, list[object]] = {n.id: [] for n in sites}
-        envs = []
-        for vals in itertools.product([False, True], repeat=len(bools)):
-            env = dict(zip(bools, vals))
-            if infeasible(env):
-                continue
-            envs.append(env)
-            may, must = simulate(cfg, start, ev, env, set(sites), outside, skip_loops=True)
-            for n in sites:
-                table[n.id].append(True if n in must else (False if n not in may else "depends on an unclassified condition"))
-        unknown = sorted(set(ev.unknown_atoms))
-        for kind, pred in kinds.items():
-            want = [bool(pred(e)) for e in envs]  # type: ignore[operator]
-            exact = [n for n in sites if table[n.id] == want]
-            construct = f"Engine.is_ready/{kind}"
-            if exact:
-                check.ok("C1", construct, f"a report site executes exactly when the {kind} operator is needed and missing "
-                         f"({len(envs)} assignments)", loc(fn, exact[0]), {"rows": len(envs), "roles": bools},
-                         exhaustive=True, cases=len(envs))
-                continue
-            # diagnose with the closest site: one that is executed only if the operator is missing
-            near = [n for n in sites if any(f"has_{kind}" in ev.roles_in(g, gn) for g, _, gn in cfg.must_guards(n))]
-            detail = "no report site"
-            where = head
-            facts: dict = {"roles": bools, "unclassified_atoms": unknown}
-            if near:
-                n = near[0]
-                where = n
-                diff = [e for v, w, e in zip(table[n.id], want, envs) if v != w][:3]
-                guards = [(unparse(g), pol) for g, pol, gn in cfg.must_guards(n) if gn in body]
-                detail = f"the site at line {n.lineno} is guarded by {guards}; it disagrees with the specification e.g. at {diff}"
-                facts.update({"guards": guards, "disagreements": diff})
-            elif unknown:
-                detail = f"no report site matches; unclassified conditions: {unknown[:4]}"
-            check.violation("C1", construct, f"missing {kind} is not reported exactly when it is needed: {detail}",
-                            loc(fn, where), facts)
-
-    block("self.rule_blocks",
-          {"conjunction": lambda e: e["need_conjunction"] and not e["has_conjunction"],
-           "disjunction": lambda e: e["need_disjunction"] and not e["has_disjunction"],
-           "implication": lambda e: e["need_implication"] and not e["has_implication"]},
-          ["need_conjunction", "has_conjunction", "need_disjunction", "has_disjunction", "need_implication", "has_implication"])
-    block("self.output_variables",
-          {"defuzzifier": lambda e: not e["has_defuzzifier"],
-           "aggregation": lambda e: not e["has_aggregation"] and e["integral"]},
-          ["has_defuzzifier", "has_aggregation", "integral"],
-          infeasible=lambda e: e["integral"] and not e["has_defuzzifier"])
-    # C1-subj: what decides the need of an operator is a property of the rule / conclusion at hand, not of something left over from
-    # another loop: the defuzzifier examined for the implication is the one of the conclusion's own variable, the text searched for
-    # `and` / `or` is the rule's own antecedent
-    rb_loops = loops_over(r, lambda b: is_path(b, "self.rule_blocks"))
-    if rb_loops:
-        rb_body = cfg.loop_body(rb_loops[0][0])
-        subjects = []
-        for n in rb_body:
-            exprs = list(cfg.exprs_of(n)) if n.kind in ("stmt", "test") else []
-            for e in exprs:
-                for x in ast.walk(e):
-                    if isinstance(x, ast.Call):
-                        t = r.term(x, n)
-                        if t[0] == "call" and t[1] == ("global", "isinstance") and len(t[2]) == 2 and t[2][1] == ("global", "fuzzylite.defuzzifier.IntegralDefuzzifier"):
-                            subjects.append((n, "implication", t[2][0]))
-                    elif isinstance(x, ast.Compare) and len(x.ops) == 1 and isinstance(x.ops[0], (ast.In, ast.NotIn)):
-                        t = r.term(x, n)
-                        if markers_in(t[2][0]) & {"AND", "OR"}:
-                            subjects.append((n, "conjunction" if "AND" in markers_in(t[2][0]) else "disjunction", t[2][1]))
-
-        def own_rule(t: Term) -> bool:
-            return t[0] == "elem" and iter_base(t[1])[0][0] == "attr" and iter_base(t[1])[0][2] == "rules" and \
-                iter_base(t[1])[0][1][0] == "elem" and is_path(iter_base(iter_base(t[1])[0][1][1])[0], "self.rule_blocks")
-
-        for n, kind, subj in subjects:
-            if kind == "implication":
-                ok = subj[0] == "attr" and subj[2] == "defuzzifier" and subj[1][0] == "attr" and subj[1][2] == "variable" and subj[1][1][0] == "elem" and \
-                    (lambda b: b[0] == "attr" and b[2] == "conclusions" and b[1][0] == "attr" and b[1][2] == "consequent" and own_rule(b[1][1]))(iter_base(subj[1][1][1])[0])
-                what = "the defuzzifier examined is the one of the conclusion's own variable"
-            else:
-                ok = subj[0] == "attr" and subj[2] == "text" and subj[1][0] == "attr" and subj[1][2] == "antecedent" and own_rule(subj[1][1])
-                what = "the text searched is the antecedent of the rule at hand"
-            check.require(ok, "C1-subj", f"Engine.is_ready/{kind}-subject", what if ok else
-                          f"whether a rule needs the {kind} operator is decided by `{show(subj)[:80]}`, which is not "
-                          + ("the defuzzifier of the variable the conclusion is about" if kind == "implication" else "the antecedent of the rule at hand")
-                          + " (a value left over from another loop): the need of some rules is misjudged", loc(fn, n))
-    # the need quantities accumulate over every rule / every conclusion
-    bad = [(name, n, h) for h in cfg.loop_heads() if h.kind == "for" for name, n in non_accumulating_liveouts(cfg, h)]
-    for name, n, h in bad:
-        check.violation("C1-acc", f"Engine.is_ready/{name}", f"`{name}` is overwritten in every iteration of the loop at line {h.lineno} and used after it: only the "
-                        "last element decides whether the operator is needed (e.g. a Mamdani conclusion followed by a weighted one hides the need for an implication)",
-                        loc(fn, n))
-    if not bad:
-        check.ok("C1-acc", "Engine.is_ready/accumulation", "every quantity computed in a loop and used after it accumulates over all elements", loc(fn))
-    check.exhaustive_parts.append("is_ready report predicates: all assignments of (needed, present) per operator kind")
+    # C1: decided by interpreting is_ready on model engines (the truth-table simulation of one loop iteration, the accumulation rule C1-acc
+    # and the subject rule C1-subj of earlier rounds are subsumed by it and were removed)
+    readiness_semantics(check)
+    check.exhaustive_parts.append("is_ready on every combination of (needed, present) per operator kind over two rules and two outputs")
     runtime_sites(check)
     dereferences(check)
     from . import c16, wiring
@@ -373,3 +196,115 @@ def dereferences(check: Check) -> None:
                               f"need a {kind} operator according to is_ready, processing fails here with AttributeError on None", loc(f, n))
     if not sites:
         raise AnalysisError("C1-deref: no use of an optional operator found on the processing path")
+
+
+# ------------------------------------------------------------------------------------------------ C1 by interpretation
+def readiness_semantics(check: Check) -> None:
+    """C1 [E up to the bound]: `Engine.is_ready` interpreted abstractly (sa/absexec.py) on engines with one input variable, a Mamdani
+    output (integral defuzzifier) and a Takagi-Sugeno output (weighted defuzzifier), and one rule block with two rules, for every
+    combination of: `and` / `or` in the first rule's antecedent, the conclusions of each rule ([mamdani], [ts], [mamdani, ts],
+    [ts, mamdani]), conjunction / disjunction / implication present or not, aggregation of the Mamdani output present or not, the
+    defuzzifier of the second output present or not. Specified: errors are reported (and the engine is not ready) exactly when an
+    operator that the rules / outputs need is missing - conjunction iff some antecedent contains ` and `, disjunction iff ` or `,
+    implication iff some conclusion is about an output with an integral defuzzifier, aggregation iff the output has an integral
+    defuzzifier, a defuzzifier always."""
+    from ..absexec import AbsExec, FString, Internal, MObj, Raised, Unknown, _Return, freeze
+
+    p = check.program
+    fn = p.func("Engine.is_ready")
+    check.analysed(fn)
+    node = fn.analysis_node
+    params = [a.arg for a in node.args.args]
+    concl_sets = [("m",), ("t",), ("m", "t"), ("t", "m")]
+    bad: dict[str, str] = {}
+    spurious: dict[str, str] = {}
+    results: dict[tuple, tuple] = {}
+    cases = 0
+
+    def contains(ex_, e, c, x):
+        if c.cls == "Text":
+            s_ = "".join(q for q in x.parts if isinstance(q, str)) if isinstance(x, FString) else x
+            if s_ in (" and ", "and"):
+                return c.fields["has_and"]
+            if s_ in (" or ", "or"):
+                return c.fields["has_or"]
+            raise Unknown(f"Engine.is_ready: searching the antecedent text for {s_!r} is outside the model")
+        raise Unknown(f"Engine.is_ready: membership in {c.cls} is outside the model")
+
+    def split(ex_, e, recv, args, kw):
+        if isinstance(recv, MObj) and recv.cls == "Text":
+            return ["a"] + (["and", "b"] if recv.fields["has_and"] else []) + (["or", "c"] if recv.fields["has_or"] else [])
+        raise Unknown("Engine.is_ready: split of something that is not the antecedent text")
+
+    hooks = {"contains": contains, "method:split": split, "method:is_loaded": lambda ex_, e, recv, args, kw: True,
+             "method:count": lambda ex_, e, recv, args, kw: (int(recv.fields["has_and"]) if args and args[0] in (" and ", "and") else int(recv.fields["has_or"]))
+             if isinstance(recv, MObj) and recv.cls == "Text" else 0}
+    helpers = {k: v for k, v in fn.cls.methods.items() if k.startswith("_") and not k.startswith("__")}
+    rule_ns = MObj("class", {"AND": "and", "OR": "or", "IS": "is", "IF": "if", "THEN": "then", "WITH": "with"})
+    try:
+        for has_and, has_or, c1, c2, conj, disj, impl, agg, dfz in itertools.product((True, False), (True, False), concl_sets, concl_sets[:2], (True, False), (True, False),
+                                                                                     (True, False), (True, False), (True, False)):
+            cases += 1
+            term = MObj("Term", {"name": "t"})
+            integral = MObj("Centroid", {"__bases__": ("IntegralDefuzzifier", "Defuzzifier")})
+            weighted = MObj("WeightedAverage", {"__bases__": ("WeightedDefuzzifier", "Defuzzifier")})
+            ov_m = MObj("OutputVariable", {"name": "mamdani", "terms": [term], "__len__": 1, "defuzzifier": integral, "aggregation": MObj("Maximum", {}) if agg else None,
+                                           "enabled": True, "__bases__": ("Variable",)})
+            ov_t = MObj("OutputVariable", {"name": "sugeno", "terms": [term], "__len__": 1, "defuzzifier": weighted if dfz else None, "aggregation": None, "enabled": True,
+                                           "__bases__": ("Variable",)})
+            iv = MObj("InputVariable", {"name": "in", "terms": [term], "__len__": 1, "enabled": True, "__bases__": ("Variable",)})
+            by = {"m": ov_m, "t": ov_t}
+
+            def mk_rule(a: bool, o: bool, concl: tuple) -> MObj:
+                return MObj("Rule", {"antecedent": MObj("Antecedent", {"text": MObj("Text", {"has_and": a, "has_or": o, "__bool__": True})}),
+                                     "consequent": MObj("Consequent", {"conclusions": [MObj("Proposition", {"variable": by[k], "hedges": [], "term": term}) for k in concl]}),
+                                     "enabled": True, "weight": 1.0})
+
+            rules = [mk_rule(has_and, has_or, c1), mk_rule(False, False, c2)]
+            rb = MObj("RuleBlock", {"name": "block", "rules": rules, "__len__": 2, "enabled": True, "conjunction": MObj("Minimum", {}) if conj else None,
+                                    "disjunction": MObj("Maximum", {}) if disj else None, "implication": MObj("Minimum", {}) if impl else None,
+                                    "activation": MObj("General", {})})
+            engine = MObj("Engine", {"name": "engine", "input_variables": [iv], "output_variables": [ov_m, ov_t], "rule_blocks": [rb]})
+            errors: list = []
+            ex = AbsExec(fn.qualname, hooks, helpers=helpers)
+            env = {params[0]: engine, params[1] if len(params) > 1 else "errors": errors, "Rule": rule_ns, "IntegralDefuzzifier": ("class", "IntegralDefuzzifier"),
+                   "WeightedDefuzzifier": ("class", "WeightedDefuzzifier"), "OutputVariable": ("class", "OutputVariable"), "InputVariable": ("class", "InputVariable"),
+                   "Variable": ("class", "Variable")}
+            try:
+                ex.block(list(node.body), env)
+                ret = None
+            except _Return as r_:
+                ret = r_.value
+            except (Raised, Internal) as err:
+                bad.setdefault("raises", f"is_ready raises {err.cls}")
+                continue
+            need = {"conjunction": has_and and not conj, "disjunction": has_or and not disj,
+                    "implication": ("m" in c1 or "m" in c2) and not impl, "aggregation": not agg, "defuzzifier": not dfz}
+            what = (f"first rule with{'' if has_and else 'out'} `and`, with{'' if has_or else 'out'} `or`, conclusions {list(c1)} / {list(c2)}; present: conjunction={conj}, "
+                    f"disjunction={disj}, implication={impl}, aggregation={agg}, defuzzifier={dfz}")
+            if ret is not (not errors):
+                bad.setdefault("result", f"{what}: is_ready returns {ret} with {len(errors)} error(s) reported")
+            if not any(need.values()) and errors:
+                spurious.setdefault("spurious", f"{what}: nothing that is needed is missing, but {len(errors)} error(s) are reported")
+            results[(has_and, has_or, c1, c2, conj, disj, impl, agg, dfz)] = (sorted(repr(freeze(x)) for x in errors), need, what)
+        # every missing operator is reported: the errors with the operator missing differ from those of the same engine with the operator present
+        position = {"conjunction": 4, "disjunction": 5, "implication": 6, "aggregation": 7, "defuzzifier": 8}
+        for cfg, (errs, need, what) in results.items():
+            for kind, missing in need.items():
+                if not missing or kind in bad:
+                    continue
+                fixed = results.get(cfg[:position[kind]] + (True,) + cfg[position[kind] + 1:])
+                if fixed is not None and (fixed[0] == errs or len(errs) < len(fixed[0])):
+                    bad[kind] = (f"{what}: the missing {kind} operator is needed, but the errors reported ({len(errs)}) are the same as for the same engine with the operator "
+                                 "present: the missing operator is not reported" + (" (the engine counts as ready)" if not errs else ""))
+    except Unknown as u:
+        raise AnalysisError(str(u)) from None
+    for kind in ("conjunction", "disjunction", "implication", "aggregation", "defuzzifier"):
+        hit = bad.get(kind)
+        check.require(hit is None, "C1", f"Engine.is_ready/{kind}", f"a missing {kind} is reported whenever it is needed ({cases} engine configurations)" if hit is None else hit,
+                      loc(fn), {"cases": cases}, exhaustive=True, cases=cases)
+    hit = bad.get("result") or bad.get("raises")
+    check.require(hit is None, "C1", "Engine.is_ready/result", "the engine is reported ready exactly when no error was found" if hit is None else hit,
+                  loc(fn), {"cases": cases}, exhaustive=True, cases=cases)
+    # not demanded by the property (an engine that is never reported ready satisfies it vacuously), recorded for the reader only
+    check.ok("C1-note", "Engine.is_ready/no-spurious-errors", spurious.get("spurious") or "nothing is reported when nothing needed is missing", loc(fn), {"cases": cases})
